@@ -251,7 +251,15 @@ impl LineSymbolMap {
         let mut bl: Vec<_> = blocks.into_iter().collect();
 
         bl.sort_by_key(|&(l, _)| l);
-        
+
+        // Line numbers index the lines of a source text, which has at most isize::MAX bytes.
+        // Rejecting anything larger also keeps all later line arithmetic (here, in `find`, `iter`
+        // and when linking debug symbols) from overflowing.
+        let in_bounds = bl.iter().all(|(ls, lb)| {
+            ls.checked_add(lb.len()).is_some_and(|end| end <= isize::MAX as usize)
+        });
+        if !in_bounds { return None; }
+
         // Check not overlapping:
         let not_overlapping = bl.windows(2).all(|win| {
             let [(ls, lb), (rs, _)] = win else { unreachable!() };
